@@ -347,7 +347,9 @@ func opTerm(o jop) string {
 	return fmt.Sprintf("DelBucket %d", o.ID)
 }
 
-// sigOf decides the known-finding SHAPE of a case from its inputs only.
+// sigOf names the SHAPE (decided from the inputs only) of the two defects repaired by /repo commits
+// "fix: ..." (findings.d/C43.json, status fixed); it is only counted in the input distribution: cases of
+// these shapes are judged like any other, so a regression is a VIOLATION.
 func sigOf(c *jcase) string {
 	for _, o := range c.Ops {
 		if o.Op == "update" && o.ID < firstMappingID {
@@ -433,7 +435,7 @@ func run(w *vh.W, c *jcase) {
 	sig := sigOf(c)
 	t := fmt.Sprintf("{| c_bks := %s; c_base := %d; c_orgs := [1; 2]; c_dbs := [1; 2]; c_rps := [0; 1; 2]; c_ops := %s; c_obs := %s |}",
 		vh.List(bt), firstMappingID, vh.List(ops), vh.List(obs))
-	w.Add(t, c, okCreates >= 2 && okOther >= 1, sig)
+	w.Add(t, c, okCreates >= 2 && okOther >= 1, "")
 	w.Count("len", fmt.Sprint(len(c.Ops)))
 	w.Count("buckets", fmt.Sprint(len(c.Buckets)))
 	if sig != "" {
@@ -479,12 +481,12 @@ func handPicked() []jcase {
 		{Buckets: bk(0, 1, 3), Ops: []jop{cr(1, "db", "r1", 14, false), cr(1, "db2", "r2", 16, false), del(1, 100), delb(15)}},
 		// deleting by the id of a plain bucket (virtual default) re-elects the first physical mapping as default, even from another org
 		{Buckets: bk(0, 8), Ops: []jop{cr(1, "db", "r1", 15, false), cr(1, "db", "r2", 15, true), del(2, 14), del(1, 15)}},
-		// KNOWN (shadow): default (db,r2) precedes non-default (db,autogen); plain bucket "db" is listed as a second (db,autogen)
+		// regression (fixed finding, shadow): default (db,r2) precedes non-default (db,autogen); plain bucket "db" must not be listed as a second (db,autogen)
 		{Buckets: bk(0, 8), Ops: []jop{cr(1, "db", "r2", 15, false), cr(1, "db", "autogen", 15, false)}},
 		{Buckets: bk(2, 0), Ops: []jop{cr(1, "db", "r2", 14, false)}},
-		// KNOWN (ghost): updating a virtual mapping stores an un-indexed record; db loses its default in the listing
+		// regression (fixed finding, ghost): updating a virtual mapping must be rejected (it used to store an un-indexed record; db lost its default in the listing)
 		{Buckets: bk(1, 8), Ops: []jop{cr(1, "db", "r2", 15, false), cr(1, "db", "autogen", 15, false), up(1, 14, "r1", true, true), del(1, 14)}},
-		// KNOWN (ghost): FindMany{} dereferences a nil default id
+		// regression (fixed finding, ghost): FindMany{} used to dereference a nil default id
 		{Buckets: bk(6), Ops: []jop{up(2, 14, "r1", false, true), cr(2, "db", "r1", 14, false)}},
 	}
 }
